@@ -198,3 +198,72 @@ class SymExec:
                 continue
             raise ExtractError("statement outside the subset: %s" % ast.unparse(s)[:80])
         return env
+
+
+# --- restricted evaluation of module-level tables --------------------------------
+def eval_tables(src, names, env=None):
+    """Evaluate module-level assignments `name = <expr>` for the requested names in
+    order of appearance, where <expr> may use: literals, lists, dicts, dict(k=v,...),
+    names of earlier tables / of `env`, and constant subscripts of those."""
+    env = dict(env or {})
+    tree = ast.parse(src)
+
+    def ev(n):
+        if isinstance(n, ast.Constant):
+            return n.value
+        if isinstance(n, ast.Name):
+            if n.id in env:
+                return env[n.id]
+            raise ExtractError("name %s not known to the table evaluator" % n.id)
+        if isinstance(n, ast.List):
+            return [ev(e) for e in n.elts]
+        if isinstance(n, ast.Tuple):
+            return tuple(ev(e) for e in n.elts)
+        if isinstance(n, ast.Dict):
+            return {ev(k): ev(v) for k, v in zip(n.keys, n.values)}
+        if isinstance(n, ast.Subscript):
+            return ev(n.value)[ev(n.slice)]
+        if isinstance(n, ast.Call) and isinstance(n.func, ast.Name) and n.func.id == "dict" and not n.args:
+            return {k.arg: ev(k.value) for k in n.keywords}
+        raise ExtractError("table expression outside the subset: %s" % ast.unparse(n)[:80])
+
+    out = {}
+    for n in tree.body:
+        if isinstance(n, ast.Assign) and len(n.targets) == 1 and isinstance(n.targets[0], ast.Name):
+            t = n.targets[0].id
+            if t in names:
+                env[t] = out[t] = ev(n.value)
+    missing = [n for n in names if n not in out]
+    if missing:
+        raise ExtractError("tables not found: %s" % missing)
+    return out
+
+
+def string_constants(src):
+    """module-level NAME = "string" constants"""
+    out = {}
+    for n in ast.parse(src).body:
+        if isinstance(n, ast.Assign) and len(n.targets) == 1 and isinstance(n.targets[0], ast.Name) \
+                and isinstance(n.value, ast.Constant) and isinstance(n.value.value, str):
+            out[n.targets[0].id] = n.value.value
+    return out
+
+
+def local_literal(src, func, name, cls=None):
+    """literal assigned to `name` inside function `func`"""
+    fn = find_def(ast.parse(src), func, cls)
+    for n in ast.walk(fn):
+        if isinstance(n, ast.Assign) and len(n.targets) == 1 and isinstance(n.targets[0], ast.Name) and n.targets[0].id == name:
+            try:
+                return ast.literal_eval(n.value)
+            except Exception as e:
+                raise ExtractError("%s is not a literal: %s" % (name, e))
+    raise ExtractError("%s not found in %s" % (name, func))
+
+
+def lean_str(s):
+    return '"' + s.replace("\\", "\\\\").replace('"', '\\"') + '"'
+
+
+def lean_list(xs, f=lambda x: x):
+    return "[" + ", ".join(f(x) for x in xs) + "]"
